@@ -258,6 +258,26 @@ def stub_roundtrip(o, store="zip", mode="w", skip=(), load_skip=(), twice=True):
     return o2, o3
 
 
+def stub_two_saves(a, b, store):
+    fs = FS()
+    path = "/work/o.zip" if store == "zip" else "/work/o"
+    with patched(fs):
+        a.save(path, mode="w", store=store)
+        b.save(path, mode="o", store=store)
+        return ser.load(path)
+
+
+def real_two_saves(a, b, store):
+    d = tempfile.mkdtemp(prefix="vf_ser_")
+    try:
+        p = os.path.join(d, "o.zip" if store == "zip" else "o")
+        a.save(p, mode="w", store=store)
+        b.save(p, mode="o", store=store)
+        return ser.load(p)
+    finally:
+        shutil.rmtree(d, ignore_errors=True)
+
+
 REAL_CONFIGS = [("zip", 4, str, "w"), ("dir", 4, str, "w"), ("zip", None, Path, "o"), ("dir", 0, Path, "o"),
                 ("zip", 9, str, "o"), ("dir", 9, str, "w"), ("zip", 0, str, "w"), ("dir", None, str, "o"),
                 ("auto", 1, Path, "w")]
